@@ -338,22 +338,54 @@ tokio::task_local! {
 /// Global wait-for graph.
 /// Key: waiting actor's ID, Value: target actor's Identity.
 #[cfg(feature = "deadlock-detection")]
-static WAIT_FOR: OnceLock<Mutex<HashMap<u64, Identity>>> = OnceLock::new();
+static WAIT_FOR: OnceLock<Mutex<HashMap<u64, (Identity, u64)>>> = OnceLock::new();
 
 #[cfg(feature = "deadlock-detection")]
-pub(crate) fn wait_for_graph() -> &'static Mutex<HashMap<u64, Identity>> {
+pub(crate) fn wait_for_graph() -> &'static Mutex<HashMap<u64, (Identity, u64)>> {
     WAIT_FOR.get_or_init(|| Mutex::new(HashMap::new()))
 }
 
+/// Removes the edge of one specific `ask` (identified by its token) from the wait-for graph.
+///
+/// Two guards exist per tracked `ask`: one owned by the asking future (dropped when the ask
+/// completes, times out or is cancelled) and one travelling with the reply channel (dropped
+/// right before the reply is sent, or when the request is destroyed unanswered). Whichever is
+/// dropped first removes the edge; the token keeps a late guard from removing the edge of a
+/// newer `ask` made by the same actor.
 #[cfg(feature = "deadlock-detection")]
-pub(crate) struct WaitForGuard(pub(crate) u64);
+pub(crate) struct WaitForGuard {
+    pub(crate) caller: u64,
+    pub(crate) token: u64,
+}
 
 #[cfg(feature = "deadlock-detection")]
 impl Drop for WaitForGuard {
     fn drop(&mut self) {
         if let Ok(mut graph) = wait_for_graph().lock() {
-            graph.remove(&self.0);
+            if graph.get(&self.caller).map(|(_, token)| *token) == Some(self.token) {
+                graph.remove(&self.caller);
+            }
         }
+    }
+}
+
+/// Sending half of an `ask` reply channel.
+pub(crate) struct ReplySender {
+    pub(crate) tx: oneshot::Sender<Box<dyn std::any::Any + Send>>,
+    #[cfg(feature = "deadlock-detection")]
+    pub(crate) edge: Option<WaitForGuard>,
+}
+
+impl ReplySender {
+    fn send(
+        self,
+        value: Box<dyn std::any::Any + Send>,
+    ) -> std::result::Result<(), Box<dyn std::any::Any + Send>> {
+        // The ask is answered from here on: it must no longer count as a wait-for edge,
+        // even though the asking task may not have been resumed yet.
+        #[cfg(feature = "deadlock-detection")]
+        drop(self.edge);
+        self.tx.send(value)
     }
 }
 
@@ -361,12 +393,12 @@ impl Drop for WaitForGuard {
 /// Self-ask (caller == callee) is checked by the caller before invoking this function,
 /// so this only handles cycles of 2+ hops.
 #[cfg(feature = "deadlock-detection")]
-pub(crate) fn has_path(graph: &HashMap<u64, Identity>, from: u64, to: u64) -> bool {
+pub(crate) fn has_path(graph: &HashMap<u64, (Identity, u64)>, from: u64, to: u64) -> bool {
     let mut current = from;
     let max_steps = graph.len();
     for _ in 0..max_steps {
         match graph.get(&current) {
-            Some(identity) => {
+            Some((identity, _)) => {
                 if identity.id == to {
                     return true;
                 }
@@ -381,7 +413,7 @@ pub(crate) fn has_path(graph: &HashMap<u64, Identity>, from: u64, to: u64) -> bo
 /// Format the cycle path for panic messages.
 #[cfg(feature = "deadlock-detection")]
 pub(crate) fn format_cycle_path(
-    graph: &HashMap<u64, Identity>,
+    graph: &HashMap<u64, (Identity, u64)>,
     caller: Identity,
     callee: Identity,
 ) -> String {
@@ -393,7 +425,7 @@ pub(crate) fn format_cycle_path(
     let max_steps = graph.len();
     for _ in 0..max_steps {
         match graph.get(&current) {
-            Some(identity) => {
+            Some((identity, _)) => {
                 path.push(identity.to_string());
                 if identity.id == caller.id {
                     break;
@@ -425,7 +457,7 @@ where
         self: Box<Self>,
         actor: &mut A,
         actor_ref: ActorRef<A>,
-        reply_channel: Option<oneshot::Sender<Box<dyn std::any::Any + Send>>>,
+        reply_channel: Option<ReplySender>,
     ) -> BoxFuture<'_, ()>;
 }
 
@@ -445,7 +477,7 @@ where
         self: Box<Self>,
         actor: &mut A,
         actor_ref: ActorRef<A>,
-        reply_channel: Option<oneshot::Sender<Box<dyn std::any::Any + Send>>>,
+        reply_channel: Option<ReplySender>,
     ) -> BoxFuture<'_, ()> {
         async move {
             let result = Message::handle(actor, *self, &actor_ref).await;
@@ -488,7 +520,7 @@ where
         /// The message payload containing the actual message data.
         payload: Box<dyn PayloadHandler<T>>,
         /// Optional channel to send the reply back to the caller (used for `ask` operations).
-        reply_channel: Option<oneshot::Sender<Box<dyn std::any::Any + Send>>>,
+        reply_channel: Option<ReplySender>,
         /// The actor reference for potential self-messaging or context.
         actor_ref: ActorRef<T>,
     },
